@@ -468,8 +468,11 @@ func (w *c15World) checkIndexes(where string) {
 			}
 		}
 		walk(w.docs[n].RootObject())
+		if bad == "" {
+			bad = registryProblem(w.docs[n])
+		}
 		if bad != "" {
-			w.viol("text-index-corrupt", fmt.Sprintf("%s, replica %s: %s", where, n, bad))
+			w.viol("structure-corrupt", fmt.Sprintf("%s, replica %s: %s", where, n, bad))
 			return
 		}
 		w.res.AddStat("text_index_checks", 1)
